@@ -148,6 +148,19 @@ impl CaretPos {
         }
     }
 
+    /// Create new [EndPoint] which is where the caret is after the given text, starting from
+    /// here: a newline moves the caret to the start of the next line.
+    #[must_use]
+    pub fn offset_text(self, text: &str) -> CaretPos {
+        text.chars().fold(self, |caret, c| {
+            if c == '\n' {
+                caret.newline()
+            } else {
+                caret.offset_pos(c.len_utf8())
+            }
+        })
+    }
+
     #[must_use]
     pub fn newline(self) -> CaretPos {
         CaretPos {
